@@ -187,7 +187,13 @@ func (s *Solver) Check(lits []*Term) SatResult {
 		n++
 	}
 	sb.WriteString("))")
-	s.send(sb.String())
+	cmd := sb.String()
+	if n == 0 {
+		// no assumption: the SMT-LIB grammar wants at least one literal in check-sat-assuming (cvc5
+		// rejects the empty list)
+		cmd = "(check-sat)"
+	}
+	s.send(cmd)
 	line := s.readLine()
 	switch line {
 	case "sat":
